@@ -367,10 +367,22 @@ def rule_case_mapping(ctx: Ctx, rep: Report) -> None:
             ok = any(".upper()==" in t or "==" in t and t.endswith(".upper()") or ".isupper()" in t for t in tests)
             rep.ob(rule, f"{fi.qualname}:lowered_key", ok, fi.where(low[0]), "only the all-capitals spelling is lowered" if ok else
                    f"`{norm(low[0])[:50]}` lowers whatever case the string is in: a mixed-case string, which BIP173 refuses, is answered as the address it misspells")
+    # (d) the encoder: BIP173 has encoders write lower case only, and the checksum is over the lower case hrp:
+    # the hrp that reaches the checksum and the output is a lowered one
+    enc = ctx.func(f"{BE}.encode")
+    hp = enc.params()[0]
+    lowered_first = False
+    for a_ in sorted([x for x in own_nodes(enc.node) if isinstance(x, ast.Assign) and any(isinstance(t, ast.Name) and t.id == hp for t in x.targets)], key=lambda x: x.lineno):
+        if any(isinstance(c, ast.Call) and isinstance(c.func, ast.Attribute) and c.func.attr in ("lower", "casefold") for c in ast.walk(a_.value)):
+            uses = [c for c in own_nodes(enc.node) if isinstance(c, ast.Call) and call_name(c) == "_create_checksum"]
+            lowered_first = bool(uses) and all(a_.lineno < c.lineno for c in uses)
+    n += 1
+    rep.ob(rule, "encode:hrp_lowered", lowered_first, enc.where(), "the hrp is lowered before the checksum is computed and the string written" if lowered_first else
+           f"`encode` writes and checksums the hrp `{hp}` in whatever case it came: an upper case hrp gives a mixed-case string its own decoder refuses")
     per_char = PT.has(d.node, "$t = ''.join(($c.lower() if $c.isascii() else $c for $c in $t))", {})
     rep.ob(rule, "_decode:lowering_is_ascii_only", per_char or bool(ascii_guard), d.where(), "lowered character by character, ascii only" if per_char else "whole-string lowering behind an isascii() refusal" if ascii_guard else
            "no ascii-only lowering found")
-    rep.floor(rule, 4)
+    rep.floor(rule, 5)
 
 
 def rule_text_admission_(ctx: Ctx, rep: Report) -> None:
